@@ -157,41 +157,47 @@ AdvRecord(e) ==
     LET a == C.advan
         as == AssignedIn(C.prog)
         amt == C.amt
-    IN [ncomp |-> NC, obs |-> ObsN,
+        nc == NC
+        obs == ObsN
+        dosen == DoseN
+    IN [ncomp |-> nc, obs |-> obs,
         rates |-> IF IsSpecial THEN Rates(a, C.trans, e, amt)
-                  ELSE IF IsGeneral THEN GeneralRates(NC, e, as) ELSE <<>>,
-        dadt  |-> IF IsDes THEN [n \in 1..NC |-> Lookup(e, "DADT(" \o NumStr(n) \o ")")] ELSE <<>>,
+                  ELSE IF IsGeneral THEN GeneralRates(nc, e, as) ELSE <<>>,
+        dadt  |-> IF IsDes THEN [n \in 1..nc |-> Lookup(e, "DADT(" \o NumStr(n) \o ")")] ELSE <<>>,
         missing |-> SetToSeq((IF IsSpecial THEN RequiredParams(a, C.trans) \ as ELSE {})
-                             \cup (IF IsGeneral /\ GeneralAmbiguous(NC, as) THEN {"ambiguous rate constant names"} ELSE {})),
-        f     |-> FOf(e, as),
-        lag   |-> [n \in 1..NC |-> Lag(n, e, as)],
-        bio   |-> [n \in 1..NC |-> Bio(n, e, as)],
-        dose  |-> Dose(a, DoseN, C.ratemode, e)]
+                             \cup (IF IsGeneral /\ GeneralAmbiguous(nc, as) THEN {"ambiguous rate constant names"} ELSE {})),
+        f     |-> RDiv(amt[obs], Scale(a, obs, e, as)),
+        lag   |-> [n \in 1..nc |-> Lag(n, e, as)],
+        bio   |-> [n \in 1..nc |-> Bio(n, e, as)],
+        dose  |-> Dose(a, dosen, C.ratemode, e)]
 
 \* amounts are visible to $DES and $ERROR as A(n)
 RECURSIVE BindAmounts(_, _)
 BindAmounts(e, n) == IF n = 0 THEN e ELSE BindAmounts(Bind(e, "A(" \o NumStr(n) \o ")", C.amt[n]), n - 1)
 
+\* (AdvRecord is bound once per action with LET: TLC's -coverage cost model expands every operator reference)
 DoAdvan ==            \* special and general linear libraries: $PK has run, PREDPP supplies F
     /\ phase = "main" /\ pc = <<>> /\ IsAdvan /\ ~IsDes
-    /\ adv' = AdvRecord(env)
-    /\ env' = Bind(BindAmounts(env, NC), "F", AdvRecord(env).f)
-    /\ IF IsVal(AdvRecord(env).f) THEN phase' = "err" /\ pc' = C.err ELSE phase' = "abort" /\ pc' = <<>>
+    /\ LET rec == AdvRecord(env) IN
+       /\ adv' = rec
+       /\ env' = Bind(BindAmounts(env, rec.ncomp), "F", rec.f)
+       /\ IF IsVal(rec.f) THEN phase' = "err" /\ pc' = C.err ELSE phase' = "abort" /\ pc' = <<>>
     /\ seen' = seen \cup {"advan"}
     /\ UNCHANGED <<case, eid>>
 
 DoEnterDes ==         \* $DES is evaluated at the probe state A(1..n) (its statements run like any abbreviated code)
     /\ phase = "main" /\ pc = <<>> /\ IsAdvan /\ IsDes
-    /\ env' = BindAmounts(env, NC)
+    /\ env' = BindAmounts(env, Len(C.comps))
     /\ phase' = "des" /\ pc' = C.des
     /\ seen' = seen \cup {"des"}
     /\ UNCHANGED <<case, eid, adv>>
 
 DoLeaveDes ==         \* the right-hand sides DADT(n) are recorded, PREDPP supplies F, $ERROR follows
     /\ phase = "des" /\ pc = <<>>
-    /\ adv' = AdvRecord(env)
-    /\ env' = Bind(env, "F", AdvRecord(env).f)
-    /\ IF IsVal(AdvRecord(env).f) THEN phase' = "err" /\ pc' = C.err ELSE phase' = "abort" /\ pc' = <<>>
+    /\ LET rec == AdvRecord(env) IN
+       /\ adv' = rec
+       /\ env' = Bind(env, "F", rec.f)
+       /\ IF IsVal(rec.f) THEN phase' = "err" /\ pc' = C.err ELSE phase' = "abort" /\ pc' = <<>>
     /\ seen' = seen \cup {"advan"}
     /\ UNCHANGED <<case, eid>>
 
